@@ -9,20 +9,20 @@
      dhat c, dpar c : derivative of the two-point (piecewise linear) and of the
                       three-point (piecewise parabolic) interpolant of the unit
                       data vector e_c  (abel/dasch.py, Dasch Eq. (7)-(10)).
-   The formulas daun_p0, daun_p1, onion_W, two_point_D, three_point_D are NOT
-   written by hand: gen/FormulasBasis.v is regenerated from abel/daun.py and
-   abel/dasch.py on every run (tools/translate/formulas_basis.py), including the
+   The formulas daun_p0/1/2, onion_W, two_point_D, three_point_D, rbasex_p0..8 are NOT
+   written by hand: gen/FormulasBasis.v is regenerated from abel/daun.py,
+   abel/dasch.py, abel/rbasex.py on every run (tools/translate/formulas_basis.py), including the
    symbolic execution of the slice / index-set statements into per-entry guards.
    Indices are integers (Z); every theorem holds for all sizes and indices.
 
    Not covered by theorems (per-instance Interval goals + quadrature sweep, see
-   evidence): daun degrees 2 and 3, rbasex, basex.  The Dasch axis row i = 0
+   evidence): daun degree 3 (Hermite pieces + spline solve), basex.  The Dasch axis row i = 0
    is a documented convention of the methods (the integrand P'(x)/x of the
    interpolant is not integrable at the axis); it is tied to the code only by
    the translation validation. *)
 From Coq Require Import Reals ZArith Lia Lra.
 From Coquelicot Require Import Coquelicot.
-From PA Require Import model.Abel proofs.AbelLemmas proofs.C09Daun proofs.C09Dasch gen.FormulasBasis.
+From PA Require Import model.Abel proofs.AbelLemmas proofs.C09Daun proofs.C09Daun2 proofs.C09Dasch proofs.C09Rbasex gen.FormulasBasis.
 Open Scope R_scope.
 
 (* daun, degree 0: A[j][i] is the Abel transform at pixel i of the indicator of
@@ -39,6 +39,13 @@ Theorem C09_daun1_entry : forall i j : Z, (0 <= i)%Z -> (0 <= j)%Z ->
   daun_p1 j i = Abel (tri (IZR j)) (IZR j + 1) (IZR i).
 Proof. exact daun1_entry. Qed.
 Print Assumptions C09_daun1_entry.
+
+(* daun, degree 2: A[j][i] is the Abel transform at pixel i of the piecewise
+   quadratic 2(r-j+1)^2 | 1-2(r-j)^2 | 2(r-j-1)^2 (breaks at j-1, j-1/2, j+1/2, j+1). *)
+Theorem C09_daun2_entry : forall i j : Z, (0 <= i)%Z -> (0 <= j)%Z ->
+  daun_p2 j i = Abel (quad2 (IZR j)) (IZR j + 1) (IZR i).
+Proof. exact daun2_entry. Qed.
+Print Assumptions C09_daun2_entry.
 
 (* the same at every real position x and centre c (not only pixels) *)
 Theorem C09_abel_rect_real : forall x c : R, 0 <= x -> 0 <= c ->
@@ -77,6 +84,34 @@ Theorem C09_three_point_entry : forall cols i j : Z, (1 <= i < cols)%Z -> (0 <= 
   three_point_D cols i j = InvAbel (dpar (IZR j)) (IZR j + 3 / 2) (IZR i).
 Proof. exact three_point_entry. Qed.
 Print Assumptions C09_three_point_entry.
+
+(* rbasex: for every order n = 0..8 (odd and even) the generated radial projection
+   P[n][R, r] (antiderivatives F_{n-1}, F_n, rFRF, second-difference stencil of
+   abel/rbasex.py) is 2 int_0^Y tri_R(rho) (r/rho)^n dy, rho = sqrt(r^2+y^2): the
+   radial part of the projection of tri_R(rho) cos^n(theta), for all 1 <= r <= R.
+   (The column r = 0 and the entry [0,0] are constants of the code: checked by the
+   correspondence and the quadrature sweep.) *)
+Theorem C09_rbasex_entry : forall Rc r : Z, (1 <= r)%Z -> (r <= Rc)%Z ->
+  rbasex_p0 Rc r = rbasex_proj 0 (IZR Rc) (IZR r) /\
+  rbasex_p1 Rc r = rbasex_proj 1 (IZR Rc) (IZR r) /\
+  rbasex_p2 Rc r = rbasex_proj 2 (IZR Rc) (IZR r) /\
+  rbasex_p3 Rc r = rbasex_proj 3 (IZR Rc) (IZR r) /\
+  rbasex_p4 Rc r = rbasex_proj 4 (IZR Rc) (IZR r) /\
+  rbasex_p5 Rc r = rbasex_proj 5 (IZR Rc) (IZR r) /\
+  rbasex_p6 Rc r = rbasex_proj 6 (IZR Rc) (IZR r) /\
+  rbasex_p7 Rc r = rbasex_proj 7 (IZR Rc) (IZR r) /\
+  rbasex_p8 Rc r = rbasex_proj 8 (IZR Rc) (IZR r).
+Proof. exact rbasex_all_entry. Qed.
+Print Assumptions C09_rbasex_entry.
+
+(* the recursion F[n+2] = (z f^n + (n-1) F[n]) / n of the code turns an
+   antiderivative of (r/rho)^n into one of (r/rho)^(n+2), for every n >= 1 *)
+Theorem C09_rbasex_F_step : forall (m : nat) (F : R -> R -> R) (r : R), 0 < r ->
+  (forall z, is_derive (F r) z ((r / sqrt (r * r + z * z)) ^ S m)) ->
+  forall z, is_derive (fun z => (z * (r / sqrt (r * r + z * z)) ^ S m + (INR (S m) - 1) * F r z) / INR (S m)) z
+                      ((r / sqrt (r * r + z * z)) ^ (2 + S m)).
+Proof. exact rbasex_F_step. Qed.
+Print Assumptions C09_rbasex_F_step.
 
 (* the hypotheses are satisfiable *)
 Example C09_hyps_ok : (1 <= 3 < 10)%Z /\ (0 <= 5 < 10)%Z /\ 0 <= 3 / 2 /\ 0 <= IZR 4.
